@@ -164,7 +164,7 @@ def worker(task):
                                  explore_solver_s=solver_s, must_cache=new_mc)
 
 
-def run_all(it, explorations, jobs=None, cross=False, max_paths=20000):
+def run_all(it, explorations, jobs=None, cross=False, max_paths=60000):
     """Runs every exploration to completion; returns (records, stats, errors)."""
     jobs = jobs or int(os.environ.get('PYVC_JOBS', min(16, os.cpu_count() or 4)))
     _STATE['it'] = it
